@@ -31,6 +31,7 @@ let sev_of = function
   | ["camstop"; i] -> DCamStop (ni i) | ["stostop"; i] -> DStoStop (ni i) | ["trigger"; i] -> DTrigger (ni i)
   | ["getframe"; i; "ok"; hw; tag; sh] -> DGetFrame (ni i, Some ((ni hw, ni tag), ni sh))
   | ["getframe"; i; "fail"] -> DGetFrame (ni i, None)
+  | ["getempty"; i] -> DGetEmpty (ni i)
   | "append" :: i :: r :: fs -> DAppend (ni i, okb r, List.map frm_of_string fs)
   | ["wmapenter"] -> WMapEnter | ["wmap"; r] -> WMap (okb r)
   | ["commit"; r; f] -> Commit (okb r, frm_of_string f)
